@@ -126,15 +126,23 @@ impl Prop for BitsProp {
             })
             .boxed()
     }
+    fn builds(&self, _tier: Tier) -> Vec<&'static str> {
+        // the crate feature `prefetch` must not matter for any answer: a smaller run without it
+        vec!["fast", "checked", "noprefetch"]
+    }
     fn cases(&self, tier: Tier, build: &str) -> u32 {
         match (self.id, tier, build) {
             ("C06", Tier::Quick, "fast") => 40_000,
+            ("C06", Tier::Quick, "noprefetch") => 6_000,
             ("C06", Tier::Quick, _) => 15_000,
             ("C06", Tier::Thorough, "fast") => 160_000,
+            ("C06", Tier::Thorough, "noprefetch") => 20_000,
             ("C06", Tier::Thorough, _) => 40_000,
             (_, Tier::Quick, "fast") => 10_000,
+            (_, Tier::Quick, "noprefetch") => 1_600,
             (_, Tier::Quick, _) => 3_200,
             (_, Tier::Thorough, "fast") => 60_000,
+            (_, Tier::Thorough, "noprefetch") => 6_000,
             (_, Tier::Thorough, _) => 12_000,
         }
     }
